@@ -11,6 +11,7 @@
 
 use std::borrow::Borrow;
 use std::cell::RefCell;
+use std::hash::{Hash, Hasher};
 
 /// How iteration orders are chosen on this thread.
 #[derive(Clone, Debug, Default)]
@@ -131,27 +132,41 @@ fn permuted<T>(items: Vec<T>) -> Vec<T> {
 
 // ---------------------------------------------------------------- HashMap
 
+/// hash -> positions in `items` (an index only: iteration order is that of `items`)
+type Index = std::collections::HashMap<u64, Vec<usize>>;
+
+fn hash_of<Q: ?Sized + Hash>(q: &Q) -> u64 {
+    let mut h = std::collections::hash_map::DefaultHasher::new();
+    q.hash(&mut h);
+    h.finish()
+}
+
 #[derive(Clone, Debug)]
 pub struct HashMap<K, V> {
     items: Vec<(K, V)>,
+    index: Index,
 }
 
 impl<K, V> Default for HashMap<K, V> {
     fn default() -> Self {
-        Self { items: Vec::new() }
+        Self {
+            items: Vec::new(),
+            index: Index::new(),
+        }
     }
 }
 
 pub enum Entry<'a, K, V> {
     Occupied(&'a mut V),
-    Vacant(&'a mut Vec<(K, V)>, K),
+    Vacant(&'a mut Vec<(K, V)>, &'a mut Index, K),
 }
 
-impl<'a, K, V> Entry<'a, K, V> {
+impl<'a, K: Hash, V> Entry<'a, K, V> {
     pub fn or_insert_with(self, f: impl FnOnce() -> V) -> &'a mut V {
         match self {
             Entry::Occupied(v) => v,
-            Entry::Vacant(items, k) => {
+            Entry::Vacant(items, index, k) => {
+                index.entry(hash_of(&k)).or_default().push(items.len());
                 items.push((k, f()));
                 &mut items.last_mut().expect("just pushed").1
             }
@@ -192,55 +207,69 @@ impl<K, V> HashMap<K, V> {
     }
 }
 
-impl<K: Eq, V> HashMap<K, V> {
-    fn position<Q: ?Sized + Eq>(&self, k: &Q) -> Option<usize>
+impl<K: Eq + Hash, V> HashMap<K, V> {
+    fn position<Q: ?Sized + Eq + Hash>(&self, k: &Q) -> Option<usize>
     where
         K: Borrow<Q>,
     {
-        self.items.iter().position(|(ik, _)| ik.borrow() == k)
+        self.index
+            .get(&hash_of(k))?
+            .iter()
+            .copied()
+            .find(|i| self.items[*i].0.borrow() == k)
+    }
+    fn reindex(&mut self) {
+        self.index.clear();
+        for (i, (k, _)) in self.items.iter().enumerate() {
+            self.index.entry(hash_of(k)).or_default().push(i);
+        }
     }
     pub fn insert(&mut self, k: K, v: V) -> Option<V> {
         match self.position(&k) {
             Some(i) => Some(std::mem::replace(&mut self.items[i].1, v)),
             None => {
+                self.index.entry(hash_of(&k)).or_default().push(self.items.len());
                 self.items.push((k, v));
                 None
             }
         }
     }
-    pub fn get<Q: ?Sized + Eq>(&self, k: &Q) -> Option<&V>
+    pub fn get<Q: ?Sized + Eq + Hash>(&self, k: &Q) -> Option<&V>
     where
         K: Borrow<Q>,
     {
         self.position(k).map(|i| &self.items[i].1)
     }
-    pub fn get_mut<Q: ?Sized + Eq>(&mut self, k: &Q) -> Option<&mut V>
+    pub fn get_mut<Q: ?Sized + Eq + Hash>(&mut self, k: &Q) -> Option<&mut V>
     where
         K: Borrow<Q>,
     {
         self.position(k).map(move |i| &mut self.items[i].1)
     }
-    pub fn contains_key<Q: ?Sized + Eq>(&self, k: &Q) -> bool
+    pub fn contains_key<Q: ?Sized + Eq + Hash>(&self, k: &Q) -> bool
     where
         K: Borrow<Q>,
     {
         self.position(k).is_some()
     }
-    pub fn remove<Q: ?Sized + Eq>(&mut self, k: &Q) -> Option<V>
+    pub fn remove<Q: ?Sized + Eq + Hash>(&mut self, k: &Q) -> Option<V>
     where
         K: Borrow<Q>,
     {
-        self.position(k).map(|i| self.items.remove(i).1)
+        let i = self.position(k)?;
+        let v = self.items.remove(i).1;
+        self.reindex();
+        Some(v)
     }
     pub fn entry(&mut self, k: K) -> Entry<'_, K, V> {
         match self.position(&k) {
             Some(i) => Entry::Occupied(&mut self.items[i].1),
-            None => Entry::Vacant(&mut self.items, k),
+            None => Entry::Vacant(&mut self.items, &mut self.index, k),
         }
     }
 }
 
-impl<K: Eq, V> FromIterator<(K, V)> for HashMap<K, V> {
+impl<K: Eq + Hash, V> FromIterator<(K, V)> for HashMap<K, V> {
     fn from_iter<T: IntoIterator<Item = (K, V)>>(iter: T) -> Self {
         let mut m = Self::new();
         for (k, v) in iter {
@@ -250,7 +279,7 @@ impl<K: Eq, V> FromIterator<(K, V)> for HashMap<K, V> {
     }
 }
 
-impl<K: Eq, V> Extend<(K, V)> for HashMap<K, V> {
+impl<K: Eq + Hash, V> Extend<(K, V)> for HashMap<K, V> {
     fn extend<T: IntoIterator<Item = (K, V)>>(&mut self, iter: T) {
         for (k, v) in iter {
             self.insert(k, v);
@@ -274,7 +303,7 @@ impl<'a, K, V> IntoIterator for &'a HashMap<K, V> {
     }
 }
 
-impl<K: Eq, V: PartialEq> PartialEq for HashMap<K, V> {
+impl<K: Eq + Hash, V: PartialEq> PartialEq for HashMap<K, V> {
     fn eq(&self, other: &Self) -> bool {
         self.len() == other.len()
             && self
@@ -283,18 +312,22 @@ impl<K: Eq, V: PartialEq> PartialEq for HashMap<K, V> {
                 .all(|(k, v)| other.get(k).is_some_and(|ov| ov == v))
     }
 }
-impl<K: Eq, V: Eq> Eq for HashMap<K, V> {}
+impl<K: Eq + Hash, V: Eq> Eq for HashMap<K, V> {}
 
 // ---------------------------------------------------------------- HashSet
 
 #[derive(Clone, Debug)]
 pub struct HashSet<T> {
     items: Vec<T>,
+    index: Index,
 }
 
 impl<T> Default for HashSet<T> {
     fn default() -> Self {
-        Self { items: Vec::new() }
+        Self {
+            items: Vec::new(),
+            index: Index::new(),
+        }
     }
 }
 
@@ -314,28 +347,43 @@ impl<T> HashSet<T> {
     }
 }
 
-impl<T: Eq> HashSet<T> {
+impl<T: Eq + Hash> HashSet<T> {
+    fn position<Q: ?Sized + Eq + Hash>(&self, v: &Q) -> Option<usize>
+    where
+        T: Borrow<Q>,
+    {
+        self.index
+            .get(&hash_of(v))?
+            .iter()
+            .copied()
+            .find(|i| self.items[*i].borrow() == v)
+    }
     pub fn insert(&mut self, v: T) -> bool {
-        if self.items.contains(&v) {
+        if self.position(&v).is_some() {
             false
         } else {
+            self.index.entry(hash_of(&v)).or_default().push(self.items.len());
             self.items.push(v);
             true
         }
     }
-    pub fn contains<Q: ?Sized + Eq>(&self, v: &Q) -> bool
+    pub fn contains<Q: ?Sized + Eq + Hash>(&self, v: &Q) -> bool
     where
         T: Borrow<Q>,
     {
-        self.items.iter().any(|i| i.borrow() == v)
+        self.position(v).is_some()
     }
-    pub fn remove<Q: ?Sized + Eq>(&mut self, v: &Q) -> bool
+    pub fn remove<Q: ?Sized + Eq + Hash>(&mut self, v: &Q) -> bool
     where
         T: Borrow<Q>,
     {
-        match self.items.iter().position(|i| i.borrow() == v) {
+        match self.position(v) {
             Some(i) => {
                 self.items.remove(i);
+                self.index.clear();
+                for (j, x) in self.items.iter().enumerate() {
+                    self.index.entry(hash_of(x)).or_default().push(j);
+                }
                 true
             }
             None => false,
@@ -343,7 +391,7 @@ impl<T: Eq> HashSet<T> {
     }
 }
 
-impl<T: Eq> FromIterator<T> for HashSet<T> {
+impl<T: Eq + Hash> FromIterator<T> for HashSet<T> {
     fn from_iter<I: IntoIterator<Item = T>>(iter: I) -> Self {
         let mut s = Self::new();
         for v in iter {
@@ -353,7 +401,7 @@ impl<T: Eq> FromIterator<T> for HashSet<T> {
     }
 }
 
-impl<T: Eq> Extend<T> for HashSet<T> {
+impl<T: Eq + Hash> Extend<T> for HashSet<T> {
     fn extend<I: IntoIterator<Item = T>>(&mut self, iter: I) {
         for v in iter {
             self.insert(v);
@@ -377,9 +425,9 @@ impl<'a, T> IntoIterator for &'a HashSet<T> {
     }
 }
 
-impl<T: Eq> PartialEq for HashSet<T> {
+impl<T: Eq + Hash> PartialEq for HashSet<T> {
     fn eq(&self, other: &Self) -> bool {
-        self.len() == other.len() && self.items.iter().all(|v| other.items.contains(v))
+        self.len() == other.len() && self.items.iter().all(|v| other.position(v).is_some())
     }
 }
-impl<T: Eq> Eq for HashSet<T> {}
+impl<T: Eq + Hash> Eq for HashSet<T> {}
